@@ -84,7 +84,7 @@ def main():
             line = [l for l in out.splitlines() if l.startswith(("VIOLATION", "BROKEN"))]
             summary = out.strip().splitlines()[-1] if out.strip() else ""
             info = {"exit": rc, "line": line[:1], "summary": summary, "wall_s": round(time.time() - t0, 1)}
-            rp = os.path.join(ROOT, "build", "alt", "replays", "%s-1-0.json" % p)
+            rp = os.path.join(ROOT, "build", os.environ.get("VERIF_ALT", "alt"), "replays", "%s-1-0.json" % p)
             if rc == 1 and os.path.exists(rp):
                 d = json.load(open(rp))
                 info["replay_kind"] = d.get("kind")
